@@ -258,6 +258,24 @@ def compare_with_model(results):
     return diffs
 
 
+def vary(seq, nib=False):
+    """the same sequence in another container the API accepts (tuple / list / trie.typing.Nibbles for nibble paths);
+    which one is a deterministic function of the content, so that replays are exact"""
+    seq = tuple(seq)
+    sel = (len(seq) + sum(x if isinstance(x, int) else len(x) for x in seq[:3])) % 3
+    if sel == 0:
+        return seq
+    if sel == 1:
+        return list(seq)
+    if nib:
+        from trie.typing import Nibbles
+        try:
+            return Nibbles(seq)
+        except Exception:  # noqa  (not a valid nibble sequence: leave the malformed input as it is)
+            return seq
+    return seq
+
+
 def safe_run_case(mod, c):
     """run one case; an adapter crash is reported, never hidden. An exception that comes out of the implementation in a
     call the adapter makes unconditionally (valid by construction, never raising on the pinned tree) is a behaviour of
